@@ -379,9 +379,16 @@ func gen(t *rapid.T) Case {
 	for i := 0; i < n; i++ {
 		op := genOp(t, i)
 		norm := func(s string) string { v, _ := strconv.ParseUint(s, 16, 32); return fmt.Sprintf("%08x", v) }
-		for seen[norm(op.TaskID)] { // request ids of one batch are distinct, as the client guarantees (random ids)
-			v, _ := strconv.ParseUint(op.TaskID, 16, 32)
-			op.TaskID = fmt.Sprintf("%08X", uint32(v+1))
+		// the client draws random ids, so ids of one batch are normally distinct; a script (or a
+		// collision) may issue a second task under an id that is still outstanding: one op in eight
+		// reuses the id of an earlier op of the case on purpose
+		if i > 0 && rapid.IntRange(0, 7).Draw(t, fmt.Sprintf("op%d_reuseid", i)) == 0 {
+			op.TaskID = c.Ops[rapid.IntRange(0, i-1).Draw(t, fmt.Sprintf("op%d_reusewhich", i))].TaskID
+		} else {
+			for seen[norm(op.TaskID)] {
+				v, _ := strconv.ParseUint(op.TaskID, 16, 32)
+				op.TaskID = fmt.Sprintf("%08X", uint32(v+1))
+			}
 		}
 		seen[norm(op.TaskID)] = true
 		c.Ops = append(c.Ops, op)
@@ -1071,6 +1078,16 @@ func classify(c Case) core.Class {
 	if c.AgentID >= 0x80000000 {
 		cl.Labels = append(cl.Labels, "id>=2^31")
 	}
+	ids := map[string]bool{}
+	for _, op := range c.Ops {
+		v, _ := strconv.ParseUint(op.TaskID, 16, 32)
+		k := fmt.Sprint(v)
+		if ids[k] {
+			cl.Labels = append(cl.Labels, "task-id-reused-while-outstanding")
+			break
+		}
+		ids[k] = true
+	}
 	cl.Labels = append(cl.Labels, fmt.Sprintf("batch:%d", len(c.Ops)))
 	cl.NonTrivial = hasStr || len(c.Ops) >= 2
 	last := ks[len(ks)-1]
@@ -1087,7 +1104,7 @@ func classify(c Case) core.Class {
 func TestC02(t *testing.T) {
 	core.Run(t, core.Spec[Case]{
 		Property: "C02", Sub: "a",
-		Rule: "1-6 operator Session/Input packages (60 command/sub-command shapes, parameters from classes empty/ascii/NUL-terminated/BMP/astral/70000 chars/path/marker, boundary ints, 8-hex task ids incl. >=2^31) for one registered agent (random or all-zero key) -> real DispatchEvent/TaskPrepare/AddJobToQueue -> check-in through the real listener engine (binaries of about the 30 MiB pipe limit, 1 in 60, are collected over successive check-ins until the no-job reply) -> reply decoded by the Demon-side reference reader with the dispatcher loop condition read from Command.c. Oracle: per task the command id, request id == hex TaskID, every argument as the C handler's ParserGet* sequence reads it, mem-file chunks precede the command and share its id, no parameter marker in clear. Non-trivial: >=1 string/bytes argument or batch >=2; distinct = (first command kind, batch size bucket 1/2/3+, zero-key)",
+		Rule: "1-6 operator Session/Input packages (60 command/sub-command shapes, parameters from classes empty/ascii/NUL-terminated/BMP/astral/70000 chars/path/marker, boundary ints, 8-hex task ids incl. >=2^31, one op in eight reusing the id of an earlier, still outstanding task) for one registered agent (random or all-zero key) -> real DispatchEvent/TaskPrepare/AddJobToQueue -> check-in through the real listener engine (binaries of about the 30 MiB pipe limit, 1 in 60, are collected over successive check-ins until the no-job reply) -> reply decoded by the Demon-side reference reader with the dispatcher loop condition read from Command.c. Oracle: per task the command id, request id == hex TaskID, every argument as the C handler's ParserGet* sequence reads it, mem-file chunks precede the command and share its id, no parameter marker in clear. Non-trivial: >=1 string/bytes argument or batch >=2; distinct = (first command kind, batch size bucket 1/2/3+, zero-key)",
 		Gen:   gen, Check: check, Classify: classify,
 		Assumptions: []string{
 			"demonref is a manual transcription of payloads/Demon/src/core/{Parser,Command,Package}.c",
